@@ -25,7 +25,7 @@ func init() {
 		Text: "the global environment built by lStatePool.New is enumerated from the source — SkipOpenLibs, the module openers, the name→function tables they register (tile38's literals and the pinned gopher-lua / gopher-json tables) — and equals the reviewed allow-list; no reference to the unrestricted openers or file loaders; the registered Go functions reach no os, os/exec, net, syscall, io/ioutil or plugin function through static calls (tile38.call/pcall only through luaTile38Call, which is governed by the script command tables)",
 		Run:  ruleSandboxEnv})
 	register(&Rule{ID: "R18.globals-locked", Props: []string{"C18"}, Floor: 1,
-		Text: "lStatePool.New installs on the globals table, on every path to its return, a metatable whose __newindex raises",
+		Text: "lStatePool.New — or a helper it calls on every path to its return — installs on the globals table a metatable whose __newindex (a literal, a local bound to one, or a declared function) raises on every path",
 		Run:  ruleGlobalsLocked})
 	register(&Rule{ID: "R18.env-immutable", Props: []string{"C18"}, Floor: 6,
 		Text: "the pooled interpreter carries nothing from one script to the next: besides the lock on new globals, every table a script can reach from its globals (the module tables tile38, json, table, math, string, os and the globals table itself for existing names) must be protected against writes by a metatable or a read-only proxy",
@@ -491,10 +491,11 @@ func ruleGlobalsLocked(c *Ctx) {
 		return
 	}
 	info := newFn.Info()
-	fg := newFlowGraph(info, newFn.Decl.Body)
+	// the installation may sit in New itself or in a helper New calls (the helper's body is then part of New)
+	x := newXFlow(c, info, newFn.Decl.Body, func(f *types.Func) bool { return f.Pkg() != nil && f.Pkg().Path() == modPath+"/internal/server" })
 	// SetMetatable(L.Get(lua.GlobalsIndex), mt)
 	var mtObj types.Object
-	sets := fg.Find(func(n ast.Node) bool {
+	sets := x.Find(func(n ast.Node) bool {
 		call, ok := n.(*ast.CallExpr)
 		if !ok || len(call.Args) != 2 {
 			return false
@@ -520,19 +521,24 @@ func ruleGlobalsLocked(c *Ctx) {
 		return true
 	})
 	if len(sets) == 0 || mtObj == nil {
-		c.bad("metatable-installed", newFn.Decl.Pos(), "no SetMetatable on the globals table in lStatePool.New: scripts can create globals that survive in the pooled state")
+		c.bad("metatable-installed", newFn.Decl.Pos(), "no SetMetatable on the globals table in lStatePool.New (or a helper it calls): scripts can create globals that survive in the pooled state")
 		return
 	}
 	okDom := true
-	for _, r := range fg.Returns() {
-		if !fg.Dominates(sets[0], r) {
+	for _, r := range x.Host.Returns() {
+		if !x.Dominates(sets[0], XLoc{Outer: r, N: r.Node}) {
 			okDom = false
 		}
 	}
-	c.check(okDom, "metatable-installed", sets[0].Node.Pos(), "SetMetatable(globals, mt) dominates the return of the new state", "a state can be returned without the globals metatable")
+	c.check(okDom, "metatable-installed", sets[0].Pos(), "SetMetatable(globals, mt) dominates the return of the new state", "a state can be returned without the globals metatable")
+	// the function that contains the installation
+	instFn := newFn
+	if sets[0].H != nil {
+		instFn = sets[0].H.fi
+	}
 	// mt.RawSetString("__newindex", L.NewFunction(f)) with f raising
 	raises := false
-	ast.Inspect(newFn.Decl.Body, func(n ast.Node) bool {
+	ast.Inspect(instFn.Decl.Body, func(n ast.Node) bool {
 		call, ok := n.(*ast.CallExpr)
 		if !ok || len(call.Args) != 2 {
 			return true
@@ -558,8 +564,12 @@ func ruleGlobalsLocked(c *Ctx) {
 		case *ast.FuncLit:
 			body = x.Body
 		case *ast.Ident:
-			if l := findLitBinding(newFn, x); l != nil {
+			if l := findLitBinding(instFn, x); l != nil {
 				body = l.Body
+			} else if f, ok := info.Uses[x].(*types.Func); ok {
+				if fi := c.FuncOf(f); fi != nil {
+					body = fi.Decl.Body
+				}
 			}
 		}
 		if body != nil {
@@ -581,7 +591,7 @@ func ruleGlobalsLocked(c *Ctx) {
 		}
 		return true
 	})
-	c.check(raises, "newindex-raises", sets[0].Node.Pos(), "__newindex of the globals metatable raises on every path", "the globals metatable has no __newindex that always raises: scripts can create new globals")
+	c.check(raises, "newindex-raises", sets[0].Pos(), "__newindex of the globals metatable raises on every path", "the globals metatable has no __newindex that always raises: scripts can create new globals")
 }
 
 // ---------------------------------------------------------------------------
@@ -1022,6 +1032,20 @@ func ruleEnvImmutable(c *Ctx) {
 			return true
 		})
 	}
+	// raw writers: the table library stores with rawset semantics (table.insert, table.remove, table.sort), so
+	// with the shared global table reachable as a value (_G, or as the environment) it creates entries the
+	// __newindex lock never sees
+	tableLib := false
+	ast.Inspect(newFn.Decl.Body, func(n ast.Node) bool {
+		if se, ok := n.(*ast.SelectorExpr); ok && se.Sel.Name == "OpenTable" {
+			if f, ok := info.Uses[se.Sel].(*types.Func); ok && f.Pkg() != nil && f.Pkg().Path() == luaPath {
+				tableLib = true
+			}
+		}
+		return true
+	})
+	c.check(!(tableLib && shared > 0), "globals/raw-writers", newFn.Decl.Pos(), "the table library is not loaded, or scripts cannot reach the shared global table",
+		"the table library is loaded and scripts reach the shared global table (_G): table.insert(_G, v) stores with raw semantics, so it creates a global that the __newindex lock never sees and that stays in the pooled interpreter for the next script")
 	c.check(shared == 0, "globals/existing-names", newFn.Decl.Pos(), "scripts do not run with the interpreter's shared global table as their environment",
 		fmt.Sprintf("scripts run with the shared global table as their environment (%d function values built with Env: state.Env) and its lock only refuses new names: a script can overwrite or remove an existing global (tile38 = nil) and the change stays in the pooled interpreter", shared))
 }
